@@ -65,7 +65,7 @@ var (
 	cborEncOpts = cbor.EncOptions{
 		Sort:        cbor.SortNone, // no key sorting — fastest
 		IndefLength: cbor.IndefLengthForbidden,
-		Time:        cbor.TimeUnixDynamic,
+		Time:        cbor.TimeRFC3339Nano, // exact: unix-float encodings lose sub-microsecond precision
 	}
 	cborDecOpts = cbor.DecOptions{
 		MaxNestedLevels: 64,
